@@ -56,10 +56,16 @@ def main():
     assert clean()
     # the runs above rewrote evidence files and the translator's generated tables from mutated trees: restore
     sh(["git", "checkout", "--", "evidence", "lean/PdfModel/Generated"], cwd=ROOT)
+    rp = os.path.join(ROOT, "seeded", "results.json")
+    allr = json.load(open(rp)) if os.path.exists(rp) else {}
+    for r in rows:
+        allr[f"{r[0]}|{r[1]}"] = {"seeded": r[0], "property": r[1], "outcome": r[2], "replay_kind": r[3], "wall_s": r[4], "verif_commit": sh(["git", "rev-parse", "--short", "HEAD"], cwd=ROOT)[1].strip()}
+    json.dump(allr, open(rp, "w"), indent=1, sort_keys=True)
     with open(os.path.join(ROOT, "seeded", "RESULTS.md"), "w") as f:
-        f.write("# Seeded changes versus the registered quick checks\n\n(regenerate with `tools/run_seeded.py`; evidence files are restored afterwards by re-running the checks)\n\n| seeded change | property | outcome | replay kind | wall s |\n|---|---|---|---|---|\n")
-        for r in rows:
-            f.write("| " + " | ".join(str(x) for x in r) + " |\n")
+        f.write("# Seeded changes versus the registered quick checks\n\n(latest outcome per seeded change; `tools/run_seeded.py [id ...]` re-runs and updates; `verif` = commit of /verif the run used)\n\n| seeded change | property | outcome | replay kind | wall s | verif |\n|---|---|---|---|---|---|\n")
+        for k in sorted(allr):
+            r = allr[k]
+            f.write(f"| {r['seeded']} | {r['property']} | {r['outcome']} | {r['replay_kind']} | {r['wall_s']} | {r['verif_commit']} |\n")
     print("written seeded/RESULTS.md")
 
 
